@@ -45,6 +45,9 @@ FAMILIES = {
     "zmopt": {"base": {"scheme": "ZM-VFNS", "process": "NC", "projectile": "positron", "target": "iron", "obscard": {"PolarizationDIS": -0.6, "PropagatorCorrection": 0.05}, "theory": {"kcThr": 2.0, "kbThr": 0.8}}},
     # asymptotic (FFN0) kernels, anti-neutrino beam
     "ffn0cc": {"base": {"scheme": "FFN03", "process": "CC", "projectile": "antineutrino"}},
+    # scale-variation switches off in a scheme with intrinsic heavy-quark kernels (they get a special treatment of the factorisation logs by a manager all points share)
+    "ffnsfoff": {"base": {"scheme": "FFNS3", "process": "NC", "theory": {"FactScaleVar": False}}},
+    "ffnsroff": {"base": {"scheme": "FONLL-FFNS4", "process": "NC", "theory": {"RenScaleVar": False}}},
 }
 # H3: designed large cards (many observables x many points, three orderings) per family
 H3_OBS = {
@@ -54,6 +57,8 @@ H3_OBS = {
     "fonll": ["F2_total", "FL_total", "F3_total", "F2_bottom", "F2_charm", "XSHERANC_total"],
     "zmopt": ["F2_total", "FL_light", "F3_total", "g1_total", "F2_charm", "XSHERANC_total", "g4_total"],
     "ffn0cc": ["F2_total", "F3_charm", "F2_charm", "XSCHORUSCC_total"],
+    "ffnsfoff": ["F2_light", "F2_total", "FL_charm", "F2_charm", "XSHERANC_total", "FL_light"],
+    "ffnsroff": ["F2_light", "F2_total", "FL_bottom", "F2_charm", "XSHERANC_total"],
 }
 H3_POINTS = ["p", "q", "r", "s", "q", "t"]  # incl. a duplicate; n_f = 3,4,5 ; two x values
 Y = 0.5
@@ -71,6 +76,7 @@ RULE = (
 ASSUMPTIONS = [
     "H1 family ffns: FFNS3, NC, PTO 1, points a,b,c,a',e with Q2 in {0.3,0.5,7}; H1 family zm: ZM-VFNS, NC, PTO 1 (thorough also 2), points with Q2 in {2,10,30} i.e. nf=3,4,5 (shared scale-variation operator cache across nf); H2: FFNS3 PTO 0; grid G6, proton, M=0.938",
     "the isolated reference is computed on a fresh Runner in the same worker process after clearing yadism's only module-level memo (heavy.n3lo.interpolators); violations are re-confirmed in a fresh interpreter",
+    "two more families (H1 and H3) switch one scale variation off in schemes with intrinsic heavy-quark kernels (FFNS3 with FactScaleVar off, FONLL-FFNS4 with RenScaleVar off)",
     "two option families (H1 and H3): zmopt = polarised positron beam on iron with propagator correction and kcThr=2, kbThr=0.8 (n_f regions move); ffn0cc = FFN0 with an antineutrino beam",
     "histories longer than the stated bounds and observables outside U are not covered",
 ]
@@ -138,14 +144,14 @@ def states(tier, seed):
                 out.append({"h": "H1", "fam": "zm", "pto": 2, "tmc": 0, "card": [[o, pl]]})
         out.append({"h": "H1", "fam": "zm", "pto": 2, "tmc": 0, "card": [["FL_light", ["r"]], ["F2_total", ["q", "p"]]]})
     # H1 on the option families (unusual card values): every one- and two-point list, and ordered pairs with one-point first lists
-    for fam, Uo in (("zmopt", ["F2_total", "XSHERANC_total", "g1_total"]), ("ffn0cc", ["F2_total", "F3_charm", "XSCHORUSCC_total"])):
+    for fam, Uo in (("zmopt", ["F2_total", "XSHERANC_total", "g1_total"]), ("ffn0cc", ["F2_total", "F3_charm", "XSCHORUSCC_total"]), ("ffnsfoff", ["F2_total", "F2_light", "FL_charm"]), ("ffnsroff", ["F2_total", "F2_light", "XSHERANC_total"])):
         for o in Uo:
             for pl in plz:
                 out.append({"h": "H1", "fam": fam, "pto": 1, "tmc": 0, "card": [[o, pl]]})
         for o1, o2 in itertools.permutations(Uo, 2):
             for a in Pz:
                 for pl2 in plz:
-                    out.append({"h": "H1", "fam": fam, "pto": 1, "tmc": 1 if fam == "zmopt" else 0, "card": [[o1, [a]], [o2, pl2]]})
+                    out.append({"h": "H1", "fam": fam, "pto": 1, "tmc": 1 if fam in ("zmopt", "ffnsfoff") else 0, "card": [[o1, [a]], [o2, pl2]]})
     # H3: designed large cards
     for fam in H3_OBS:
         for tmc in (0, 1):
